@@ -7,7 +7,8 @@ PROP_FILES = ["Properties/C01.v", "Properties/C01_scanner.v", "Properties/C01_te
 THEOREMS = ["C01_parse_sound", "C01_parse_iff", "C01_grammar_unambiguous", "C01_fuel_enough",
             "C01_grouping_transparent", "C01_example", "C01_refuted_without_eof_check"]
 ASSUMPTIONS = [
-    "formulas are ASCII (str.isalpha/isdigit are Unicode-aware in the implementation)",
+    "formulas are ASCII (str.isalpha/isdigit are Unicode-aware in the implementation); a dozen non-ASCII texts are "
+    "decided by the direct oracle alone",
     "the scanner/parser procedures are tied by correspondence; their tables by coq/Generated/Tie.v",
 ]
 RULE = ("exhaustive strings of k lexemes joined by single spaces over a fixed alphabet, grammar-generated "
@@ -179,8 +180,17 @@ def _after_cases(rng, n):
     return [dict(c, kind="after") for c in out]
 
 
+# texts with characters outside ASCII (decided by the oracle alone: the model reads bytes and assumes ASCII).  What is
+# written is what is read: a name keeps its characters, a character that is neither white space nor part of a token
+# is refused.  (text, expectation): number of common terms incl. the intercept, or "reject"
+NON_ASCII = [("y ~ `x\u00b2` + x2", 3), ("y ~ x\u00b2 + x2", 3), ("y ~ x\u00a0+ z", "reject"), ("y ~ x\u2003+ z", "reject"),
+             ("y ~ x \uff0b z", "reject"), ("dose['\u00b5g'] ~ x", 2), ("y ~ \ufb01t + fit", 3), ("y ~ \u212b + \u00c5", 3),
+             ("y ~ f(x, '\u00b5') + f(x, '\u03bc')", 3), ("y ~ `a\u00a0b` + `a b`", 3), ("y ~ \uff58 + x", 3)]
+
+
 def gen(rng, tier):
     cases = [{"s": t, "kind": "fixed"} for t in FIXED]
+    cases += [{"s": t, "kind": "non-ascii", "nonascii": True, "expect": e} for t, e in NON_ASCII]
     cases += _after_cases(rng, 3000 if tier == "thorough" else 300)
     kmax25 = 4 if tier == "thorough" else 3
     for k in range(1, kmax25 + 1):
@@ -239,6 +249,8 @@ def nontrivial(c, mo, obs):
 # --------------------------------------------------------------------------- model side
 def model_cmd(c):
     import core
+    if c.get("nonascii"):
+        return core.sshow(["c01", "y ~ x"])    # placeholder: the comparison is skipped
     return core.sshow(["c01", c["s"]])
 
 
@@ -323,6 +335,8 @@ def _same(m, i):
 
 def compare(c, mo, obs):
     """mo = (("ok" ast)|("err" k)) (("ok" desc)|("err" k))"""
+    if c.get("nonascii"):
+        return None
     if not (isinstance(obs, list) and len(obs) == 3):
         return f"implementation observation malformed: {obs!r}"[:300]
     for name, m, i in (("parse", mo[0], obs[1]), ("describe", mo[1], obs[2])):
@@ -501,6 +515,19 @@ def oracle(c):
     from formulae.parser import Parser
     from formulae import model_description
     s = c["s"]
+    if c.get("nonascii"):
+        try:
+            m_ = model_description(s)
+        except Exception as e:
+            if c["expect"] == "reject":
+                return None
+            return f"{s!r} is a formula over names with non-ASCII letters but is rejected ({type(e).__name__}: {str(e)[:60]})"
+        if c["expect"] == "reject":
+            return (f"{s!r} holds a character that is neither white space nor part of a token, but is accepted: "
+                    f"{describe_list(m_)}")
+        names_ = [str(t.name) for t in m_.common_terms]
+        if len(names_) != c["expect"] or len(set(names_)) != len(names_):
+            return f"{s!r}: common terms {names_}; the {c['expect'] - 1} names written are different names"
     if s in SAME_NAME:
         m_ = model_description(s)
         terms_ = list(m_.common_terms)
